@@ -1,0 +1,385 @@
+//! Verification hooks (only compiled with the `verif-hooks` cargo feature).
+//!
+//! Vector-backed look-alikes of `std::collections::{HashMap, HashSet}` whose
+//! *iteration order* is a choice point owned by an external explorer: every
+//! operation that iterates asks a thread-local schedule for a permutation of
+//! `0..len`. With no schedule installed the order is insertion order.
+//!
+//! The real std maps iterate in an arbitrary (randomly seeded) order, so any
+//! order the schedule picks is one the real map could produce.
+#![allow(missing_docs)]
+
+use std::borrow::Borrow;
+use std::cell::RefCell;
+
+/// How iteration orders are chosen on this thread.
+#[derive(Clone, Debug, Default)]
+pub struct Schedule {
+    /// permutation code applied at every iteration point not listed in `overrides`
+    pub default_code: usize,
+    /// (iteration point index, permutation code)
+    pub overrides: Vec<(usize, usize)>,
+}
+
+#[derive(Default)]
+struct State {
+    schedule: Option<Schedule>,
+    /// sizes of the iteration points (with len >= 2) seen since the last reset
+    trace: Vec<usize>,
+    recording: bool,
+}
+
+thread_local! {
+    static STATE: RefCell<State> = RefCell::new(State::default());
+}
+
+/// Install a schedule and start recording iteration points on this thread.
+pub fn install(schedule: Schedule) {
+    STATE.with(|s| {
+        let mut s = s.borrow_mut();
+        s.schedule = Some(schedule);
+        s.trace.clear();
+        s.recording = true;
+    })
+}
+
+/// Remove the schedule; returns the sizes of all iteration points (len >= 2) seen.
+pub fn uninstall() -> Vec<usize> {
+    STATE.with(|s| {
+        let mut s = s.borrow_mut();
+        s.schedule = None;
+        s.recording = false;
+        std::mem::take(&mut s.trace)
+    })
+}
+
+/// Number of distinct permutation codes that are meaningful for a collection of `n` elements.
+pub fn codes_for_len(n: usize) -> usize {
+    if n <= 1 {
+        1
+    } else if n <= 6 {
+        (1..=n).product()
+    } else {
+        // identity, reverse, and n-1 rotations
+        n + 1
+    }
+}
+
+/// The permutation of `0..n` with the given code. Code 0 is always the identity.
+/// For n <= 6 codes enumerate all n! permutations in lexicographic order; for
+/// larger n: 1 = reverse, k >= 2 = rotation by k-1. Codes wrap around.
+pub fn permutation(n: usize, code: usize) -> Vec<usize> {
+    let count = codes_for_len(n);
+    let code = code % count;
+    if code == 0 || n <= 1 {
+        return (0..n).collect();
+    }
+    if n <= 6 {
+        let mut avail: Vec<usize> = (0..n).collect();
+        let mut out = Vec::with_capacity(n);
+        let mut k = code;
+        let mut fact: usize = (1..n).product();
+        for i in 0..n {
+            let idx = k / fact;
+            k %= fact;
+            out.push(avail.remove(idx));
+            if n - 1 - i > 0 {
+                fact /= n - 1 - i;
+            }
+        }
+        out
+    } else if code == 1 {
+        (0..n).rev().collect()
+    } else {
+        let r = code - 1;
+        (0..n).map(|i| (i + r) % n).collect()
+    }
+}
+
+fn next_order(n: usize) -> Vec<usize> {
+    if n <= 1 {
+        return (0..n).collect();
+    }
+    STATE.with(|s| {
+        let mut s = s.borrow_mut();
+        if !s.recording {
+            return (0..n).collect();
+        }
+        let point = s.trace.len();
+        s.trace.push(n);
+        let code = match &s.schedule {
+            Some(sch) => sch
+                .overrides
+                .iter()
+                .find(|(p, _)| *p == point)
+                .map(|(_, c)| *c)
+                .unwrap_or(sch.default_code),
+            None => 0,
+        };
+        permutation(n, code)
+    })
+}
+
+fn permuted<T>(items: Vec<T>) -> Vec<T> {
+    let order = next_order(items.len());
+    let mut slots: Vec<Option<T>> = items.into_iter().map(Some).collect();
+    order
+        .into_iter()
+        .map(|i| slots[i].take().expect("permutation is a bijection"))
+        .collect()
+}
+
+// ---------------------------------------------------------------- HashMap
+
+#[derive(Clone, Debug)]
+pub struct HashMap<K, V> {
+    items: Vec<(K, V)>,
+}
+
+impl<K, V> Default for HashMap<K, V> {
+    fn default() -> Self {
+        Self { items: Vec::new() }
+    }
+}
+
+pub enum Entry<'a, K, V> {
+    Occupied(&'a mut V),
+    Vacant(&'a mut Vec<(K, V)>, K),
+}
+
+impl<'a, K, V> Entry<'a, K, V> {
+    pub fn or_insert_with(self, f: impl FnOnce() -> V) -> &'a mut V {
+        match self {
+            Entry::Occupied(v) => v,
+            Entry::Vacant(items, k) => {
+                items.push((k, f()));
+                &mut items.last_mut().expect("just pushed").1
+            }
+        }
+    }
+    pub fn or_insert(self, v: V) -> &'a mut V {
+        self.or_insert_with(|| v)
+    }
+    pub fn or_default(self) -> &'a mut V
+    where
+        V: Default,
+    {
+        self.or_insert_with(V::default)
+    }
+}
+
+impl<K, V> HashMap<K, V> {
+    pub fn new() -> Self {
+        Self::default()
+    }
+    pub fn len(&self) -> usize {
+        self.items.len()
+    }
+    pub fn is_empty(&self) -> bool {
+        self.items.is_empty()
+    }
+    pub fn iter(&self) -> std::vec::IntoIter<(&K, &V)> {
+        permuted(self.items.iter().map(|(k, v)| (k, v)).collect()).into_iter()
+    }
+    pub fn keys(&self) -> std::vec::IntoIter<&K> {
+        permuted(self.items.iter().map(|(k, _)| k).collect()).into_iter()
+    }
+    pub fn values(&self) -> std::vec::IntoIter<&V> {
+        permuted(self.items.iter().map(|(_, v)| v).collect()).into_iter()
+    }
+    pub fn into_values(self) -> std::vec::IntoIter<V> {
+        permuted(self.items.into_iter().map(|(_, v)| v).collect()).into_iter()
+    }
+}
+
+impl<K: Eq, V> HashMap<K, V> {
+    fn position<Q: ?Sized + Eq>(&self, k: &Q) -> Option<usize>
+    where
+        K: Borrow<Q>,
+    {
+        self.items.iter().position(|(ik, _)| ik.borrow() == k)
+    }
+    pub fn insert(&mut self, k: K, v: V) -> Option<V> {
+        match self.position(&k) {
+            Some(i) => Some(std::mem::replace(&mut self.items[i].1, v)),
+            None => {
+                self.items.push((k, v));
+                None
+            }
+        }
+    }
+    pub fn get<Q: ?Sized + Eq>(&self, k: &Q) -> Option<&V>
+    where
+        K: Borrow<Q>,
+    {
+        self.position(k).map(|i| &self.items[i].1)
+    }
+    pub fn get_mut<Q: ?Sized + Eq>(&mut self, k: &Q) -> Option<&mut V>
+    where
+        K: Borrow<Q>,
+    {
+        self.position(k).map(move |i| &mut self.items[i].1)
+    }
+    pub fn contains_key<Q: ?Sized + Eq>(&self, k: &Q) -> bool
+    where
+        K: Borrow<Q>,
+    {
+        self.position(k).is_some()
+    }
+    pub fn remove<Q: ?Sized + Eq>(&mut self, k: &Q) -> Option<V>
+    where
+        K: Borrow<Q>,
+    {
+        self.position(k).map(|i| self.items.remove(i).1)
+    }
+    pub fn entry(&mut self, k: K) -> Entry<'_, K, V> {
+        match self.position(&k) {
+            Some(i) => Entry::Occupied(&mut self.items[i].1),
+            None => Entry::Vacant(&mut self.items, k),
+        }
+    }
+}
+
+impl<K: Eq, V> FromIterator<(K, V)> for HashMap<K, V> {
+    fn from_iter<T: IntoIterator<Item = (K, V)>>(iter: T) -> Self {
+        let mut m = Self::new();
+        for (k, v) in iter {
+            m.insert(k, v);
+        }
+        m
+    }
+}
+
+impl<K: Eq, V> Extend<(K, V)> for HashMap<K, V> {
+    fn extend<T: IntoIterator<Item = (K, V)>>(&mut self, iter: T) {
+        for (k, v) in iter {
+            self.insert(k, v);
+        }
+    }
+}
+
+impl<K, V> IntoIterator for HashMap<K, V> {
+    type Item = (K, V);
+    type IntoIter = std::vec::IntoIter<(K, V)>;
+    fn into_iter(self) -> Self::IntoIter {
+        permuted(self.items).into_iter()
+    }
+}
+
+impl<'a, K, V> IntoIterator for &'a HashMap<K, V> {
+    type Item = (&'a K, &'a V);
+    type IntoIter = std::vec::IntoIter<(&'a K, &'a V)>;
+    fn into_iter(self) -> Self::IntoIter {
+        self.iter()
+    }
+}
+
+impl<K: Eq, V: PartialEq> PartialEq for HashMap<K, V> {
+    fn eq(&self, other: &Self) -> bool {
+        self.len() == other.len()
+            && self
+                .items
+                .iter()
+                .all(|(k, v)| other.get(k).is_some_and(|ov| ov == v))
+    }
+}
+impl<K: Eq, V: Eq> Eq for HashMap<K, V> {}
+
+// ---------------------------------------------------------------- HashSet
+
+#[derive(Clone, Debug)]
+pub struct HashSet<T> {
+    items: Vec<T>,
+}
+
+impl<T> Default for HashSet<T> {
+    fn default() -> Self {
+        Self { items: Vec::new() }
+    }
+}
+
+// No `Eq` bound here: `error.rs` iterates a `HashSet<impl ToTokens>`.
+impl<T> HashSet<T> {
+    pub fn new() -> Self {
+        Self::default()
+    }
+    pub fn len(&self) -> usize {
+        self.items.len()
+    }
+    pub fn is_empty(&self) -> bool {
+        self.items.is_empty()
+    }
+    pub fn iter(&self) -> std::vec::IntoIter<&T> {
+        permuted(self.items.iter().collect()).into_iter()
+    }
+}
+
+impl<T: Eq> HashSet<T> {
+    pub fn insert(&mut self, v: T) -> bool {
+        if self.items.contains(&v) {
+            false
+        } else {
+            self.items.push(v);
+            true
+        }
+    }
+    pub fn contains<Q: ?Sized + Eq>(&self, v: &Q) -> bool
+    where
+        T: Borrow<Q>,
+    {
+        self.items.iter().any(|i| i.borrow() == v)
+    }
+    pub fn remove<Q: ?Sized + Eq>(&mut self, v: &Q) -> bool
+    where
+        T: Borrow<Q>,
+    {
+        match self.items.iter().position(|i| i.borrow() == v) {
+            Some(i) => {
+                self.items.remove(i);
+                true
+            }
+            None => false,
+        }
+    }
+}
+
+impl<T: Eq> FromIterator<T> for HashSet<T> {
+    fn from_iter<I: IntoIterator<Item = T>>(iter: I) -> Self {
+        let mut s = Self::new();
+        for v in iter {
+            s.insert(v);
+        }
+        s
+    }
+}
+
+impl<T: Eq> Extend<T> for HashSet<T> {
+    fn extend<I: IntoIterator<Item = T>>(&mut self, iter: I) {
+        for v in iter {
+            self.insert(v);
+        }
+    }
+}
+
+impl<T> IntoIterator for HashSet<T> {
+    type Item = T;
+    type IntoIter = std::vec::IntoIter<T>;
+    fn into_iter(self) -> Self::IntoIter {
+        permuted(self.items).into_iter()
+    }
+}
+
+impl<'a, T> IntoIterator for &'a HashSet<T> {
+    type Item = &'a T;
+    type IntoIter = std::vec::IntoIter<&'a T>;
+    fn into_iter(self) -> Self::IntoIter {
+        self.iter()
+    }
+}
+
+impl<T: Eq> PartialEq for HashSet<T> {
+    fn eq(&self, other: &Self) -> bool {
+        self.len() == other.len() && self.items.iter().all(|v| other.items.contains(v))
+    }
+}
+impl<T: Eq> Eq for HashSet<T> {}
